@@ -446,8 +446,20 @@ let () =
        let line = String.trim (input_line ic) in
        if line <> "" && line.[0] <> '#' then begin
          let c = parse_case line in
-         let (rs, s1) = run_ops c.ops c.s0 in
-         Printf.fprintf oc "M %s\n" (fmt_obs c rs s1);
+         (* a program that does not come to an end within the step budget is marked (fuel=1): the implementation's run() has
+            no budget, the harness does not hand such a case to it *)
+         let fuel_out = ref false in
+         let (rs, s1) =
+           match c.ops with
+           | [ ORun (fuel, script) ] ->
+             (match run (Z.to_nat fuel) script c.s0 with
+              | Some (Finished s') -> ([ ROk ], s')
+              | Some (Failed s') -> ([ RErr ], s')
+              | Some Crashed -> ([ RPanic ], c.s0)
+              | Some (Continue r) -> ([ RErr ], r.r_ctl.c_cpu)
+              | None -> fuel_out := true; ([ RPanic ], c.s0))
+           | _ -> run_ops c.ops c.s0 in
+         Printf.fprintf oc "M %s%s\n" (fmt_obs c rs s1) (if !fuel_out then " fuel=1" else "");
          (match c.kind with
           | "price" ->
             let (r, d) = ref_price c in
